@@ -263,3 +263,26 @@ func WideLen(t *rapid.T, label string) int {
 	}
 	return rapid.IntRange(32, 64).Draw(t, label)
 }
+
+// Adjacent lays byte strings out back to back in one backing array that
+// ends in a canary, and returns them as sub-slices whose spare capacity
+// belongs to their neighbours -- the way callers slice arguments out of a
+// network buffer.  A callee that appends to, or edits, one of its inputs
+// then damages a neighbour or the canary; unchanged() reports whether the
+// whole backing array still has its original contents.
+func Adjacent(parts ...[]byte) (out [][]byte, unchanged func() bool) {
+	canary := []byte{0xc5, 0x5c, 0xa7, 0x7a, 0x11, 0xee, 0x42, 0x24, 0x99, 0x66, 0x3c, 0xc3, 0x0f, 0xf0, 0x5a, 0xa5,
+		0xc5, 0x5c, 0xa7, 0x7a, 0x11, 0xee, 0x42, 0x24, 0x99, 0x66, 0x3c, 0xc3, 0x0f, 0xf0, 0x5a, 0xa5, 0x01, 0x02}
+	var backing []byte
+	for _, p := range parts {
+		backing = append(backing, p...)
+	}
+	backing = append(backing, canary...)
+	orig := append([]byte(nil), backing...)
+	off := 0
+	for _, p := range parts {
+		out = append(out, backing[off:off+len(p)]) // cap extends to the end of backing
+		off += len(p)
+	}
+	return out, func() bool { return string(backing) == string(orig) }
+}
